@@ -1,6 +1,6 @@
 (* C18: the correspondence case - graph built by a history, observed as by the pure query "Q 0", T reader threads x R rounds. *)
 From Coq Require Import List Arith ZArith.
-From BG Require Import Base DirectedModel DirectedSpec UndirectedModel UndirectedSpec Instances ConcModel.
+From BG Require Import Base DirectedModel DirectedSpec UndirectedModel UndirectedSpec MultiModel WeightedModel MultiSpec Instances ConcModel.
 Import ListNotations.
 Local Open Scope Z_scope.
 Definition conc_lines (l : list (list Z)) (T R : nat) (cnt : Z) : list (list (list Z)) := [l; [[Z.of_nat T; Z.of_nat R; cnt]]; l].
@@ -18,3 +18,17 @@ Definition d_conc_spec (hs : bool) (n : nat) (ops : list (@dop Z)) (T R : nat) :
   conc_spec_lines (option_map (fun a => [0] :: sobserve Z.eqb 0 hs idz (alpha hs) a ++ [[]]) (gsfinal rejected_code spec_step (s_init n) ops)) T R.
 Definition u_conc_spec (hs : bool) (n : nat) (ops : list (@uop Z)) (T R : nat) :=
   conc_spec_lines (option_map (fun a => [0] :: sobserve_u Z.eqb 0 hs idz (alpha hs) a ++ [[]]) (gsfinal u_rejected_code uspec_step (s_init n) ops)) T R.
+
+(* multigraph / weighted classes: cls 0 DM, 1 UM, 2 DW, 3 UW *)
+Definition m_conc_case (cls : nat) (v : variant) (n : nat) (final : option mgraph) (T R : nat) (s t : nat) : list (list (list Z)) :=
+  match final with
+  | Some m => conc_lines ([0] :: mobs cls m ++ [[]]) T R (mconc_mismatches cls m T R s t)
+  | None => conc_lines [[zub]] T R (-1) end.
+Definition dm_conc_case v n (ops : list mop) := m_conc_case 0 v n (gfinal (dm_step v) (dm_init n) ops).
+Definition um_conc_case v n (ops : list mop) := m_conc_case 1 v n (gfinal (um_step v true) (dm_init n) ops).
+Definition dw_conc_case v n (ops : list wop) := m_conc_case 2 v n (gfinal (dw_step v) (dm_init n) ops).
+Definition uw_conc_case v n (ops : list wop) := m_conc_case 3 v n (gfinal (uw_step v true) (dm_init n) ops).
+Definition m_conc_spec (und : bool) (n : nat) (ops : list mop) (T R : nat) :=
+  conc_spec_lines (option_map (fun a => [0] :: sobserve_m und a ++ [[]]) (gsfinal m_rejected_code (mspec_step und) (s_init n) ops)) T R.
+Definition w_conc_spec (und : bool) (n : nat) (ops : list wop) (T R : nat) :=
+  conc_spec_lines (option_map (fun a => [0] :: sobserve_w und a ++ [[]]) (gsfinal w_rejected_code (wspec_step und) (s_init n) ops)) T R.
